@@ -106,9 +106,9 @@ def match_brace(s, open_pos):
 
 
 def find_impl_blocks(src, type_name):
-    """All inherent `impl [<..>] Type [<..>] {` blocks: list of (body_start, body_end)."""
+    """All `impl [<..>] [Trait for] Type [<..>] {` blocks: list of (body_start, body_end)."""
     out = []
-    pat = re.compile(r"^impl(?:<[^>{]*>)?\s+" + re.escape(type_name) + r"(?:<[^>{]*>)?\s*\{", re.M)
+    pat = re.compile(r"^impl(?:<[^>{]*>)?\s+(?:[\w:]+(?:<[^>{]*>)?\s+for\s+)?" + re.escape(type_name) + r"(?:<[^>{]*>)?\s*\{", re.M)
     for m in pat.finditer(src):
         o = m.end() - 1
         c = match_brace(src, o)
@@ -331,6 +331,9 @@ def render_fn(fn, recipe, log):
         body = drop_macro_statements(body, recipe["drop_macros"], log)
     if recipe.get("erase_errors"):
         body = erase_error_values(body, recipe["erase_errors"], log)
+    if recipe.get("erase_error_structs"):
+        # error values written as struct-like enum variants: `Prefix::Variant { field: .., .. }`
+        body = erase_error_values(body, recipe["erase_error_structs"], log, structs=True)
     # generic desugarings (order matters: chains first, then patterns)
     for d in recipe.get("desugar", []):
         body = DESUGARINGS[d](body, log)
@@ -654,10 +657,57 @@ def desugar_continue(body, log):
     return body
 
 
-DESUGARINGS = {"continue": desugar_continue, "let_chains": desugar_let_chains, "deref_pat": desugar_deref_patterns, "ref_pat": desugar_ref_patterns}
+def desugar_enumerate(body, log):
+    """`for (i, PAT) in EXPR.enumerate() { BODY }` -> `let mut i: usize = 0; for PAT in EXPR { BODY i += 1; }`.
+    (Verus has no specification for Enumerate. The two forms are equivalent when BODY has no `continue`:
+    the counter starts at 0 and is incremented once per completed iteration; an early `return`/`break`
+    leaves the loop in both forms. A `continue` in BODY is refused.)"""
+    count = 0
+    while True:
+        sset = set(p for p, _ in _scan_tokens(body, 0))
+        hit = None
+        for m in re.finditer(r"\bfor \((\w+), ", body):
+            if m.start() not in sset:
+                continue
+            # closing paren of the tuple pattern `(i, PAT)`
+            o = m.start() + 4
+            depth, close = 0, None
+            for pos, ch in _scan_tokens(body, o):
+                if ch == "(":
+                    depth += 1
+                elif ch == ")":
+                    depth -= 1
+                    if depth == 0:
+                        close = pos
+                        break
+            if close is None:
+                continue
+            mm = re.match(r"\s+in\s+(.+?)\.enumerate\(\)\s*\{", body[close + 1:], re.S)
+            if not mm or "{" in mm.group(1):
+                continue
+            hit = (m, close, mm)
+            break
+        if not hit:
+            break
+        m, close, mm = hit
+        var, pat, expr = m.group(1), body[m.end():close], mm.group(1)
+        bo = close + 1 + mm.end() - 1
+        bc = match_brace(body, bo)
+        inner = body[bo + 1:bc]
+        if re.search(r"\bcontinue\b", re.sub(r"//[^\n]*", "", inner)):
+            raise ExtractError("enumerate desugaring: loop body contains `continue`")
+        body = (body[:m.start()] + f"let mut {var}: usize = 0;\n for {pat} in {expr} {{" + inner +
+                f"\n{var} += 1;\n}}" + body[bc + 1:])
+        count += 1
+    if count:
+        log["rewrites"].append(f"desugar enumerate: {count} `for (i, PAT) in EXPR.enumerate() {{ B }}` -> `let mut i: usize = 0; for PAT in EXPR {{ B; i += 1; }}` (no `continue` in B, checked)")
+    return body
 
 
-def erase_error_values(body, prefixes, log, replacement="VerifError {}"):
+DESUGARINGS = {"enumerate": desugar_enumerate, "continue": desugar_continue, "let_chains": desugar_let_chains, "deref_pat": desugar_deref_patterns, "ref_pat": desugar_ref_patterns}
+
+
+def erase_error_values(body, prefixes, log, replacement="VerifError {}", structs=False):
     """Replace every expression `<prefix><Ident>(<balanced>)` (an error VALUE being built, e.g.
     `P2PError::Security(SecurityError::X(format!(..).into()))`) by a unit error value. The error
     payload (message text, nested enums) is DROPPED -- listed in the evidence; control flow (which
@@ -667,7 +717,7 @@ def erase_error_values(body, prefixes, log, replacement="VerifError {}"):
         while True:
             sset = set(p for p, _ in _scan_tokens(body, 0))
             hit = None
-            for m in re.finditer(re.escape(prefix) + r"\w+\s*\(", body):
+            for m in re.finditer(re.escape(prefix) + (r"\w+\s*[\(\{]" if structs else r"\w+\s*\("), body):
                 if m.start() in sset:
                     hit = m
                     break
